@@ -18,4 +18,6 @@ run 1c12e4f "PATH override" "C11"
 run 8e7caa3 "bash backslash escape" "C07"
 run 8219055 "bash prefix stripping quoting" "C07"
 run a4fe789 "DOT escaping" "C16"
+run 753c40f "input pool equality as sets" "C10 C02"
+run 239cc0e "minimisation early break" "C03 C02"
 echo DONE >> $out
